@@ -26,10 +26,17 @@ import (
 // Scenario is one fault x close point.  It is the replayable input of a C12 case.
 type Scenario struct {
 	ID     int    `json:"id"`
-	Stream string `json:"stream"` // ts-vod fmp4-mv fmp4-audio ts-live (+ "-paced")
+	Stream string `json:"stream"` // ts-vod fmp4-mv fmp4-audio ts-live fmp4-ll (+ "-paced")
 	// fault injected at request index FaultAt: none | status | transport
 	Fault   string `json:"fault"`
 	FaultAt int    `json:"fault_at"`
+	// status faults: the status code answered (0 = 404) and whether the answer nevertheless carries
+	// the content of the requested resource.  What the code under test does today, and therefore
+	// what is demanded: a playlist request accepts only 200; an init / segment / part request
+	// accepts 200 and 206 (ranged requests); every other status - 2xx and 3xx included, with or
+	// without a body - is the HTTP failure "bad status code: N".
+	FaultStatus int  `json:"fault_status,omitempty"`
+	FaultBody   bool `json:"fault_body,omitempty"`
 	// OnTracks returns an error
 	OnTracksErr bool `json:"ontracks_err"`
 	// where Close is called:
@@ -46,11 +53,13 @@ type Scenario struct {
 }
 
 type childResult struct {
-	Trace          []string `json:"trace"` // observable events in order, up to the result
+	Trace          []string `json:"trace"`     // observable events in order, up to the result
+	Truncated      bool     `json:"truncated"` // more than maxTrace events: the trace is a prefix
 	Result         string   `json:"result"`
 	ResultText     string   `json:"result_text"`
 	CloseBefore    bool     `json:"close_before"` // Close had been called when the result arrived
 	FaultServed    bool     `json:"fault_served"` // the injected fault was reached
+	FaultKind      string   `json:"fault_kind"`   // kind of the request that got it: primary-playlist media-playlist init segment part
 	OnTracksErred  bool     `json:"ontracks_erred"`
 	AllDone        bool     `json:"all_done"`      // every request succeeded and every sample was delivered
 	PointReached   bool     `json:"point_reached"` // the close point was reached (before the result)
@@ -84,15 +93,17 @@ type child struct {
 	client *gohlslib.Client
 	jit    *rng.R
 
-	mu       sync.Mutex
-	trace    []string
-	nreq     int
-	reloads  int
-	okReqs   int
-	samples  int
-	resulted bool
-	allDone  bool
+	mu        sync.Mutex
+	trace     []string
+	nreq      int
+	reloads   int
+	okReqs    int
+	samples   int
+	resulted  bool
+	allDone   bool
+	truncated bool
 
+	faultKind    atomic.Value
 	closeCalled  atomic.Bool
 	pointReached atomic.Bool
 	faultServed  atomic.Bool
@@ -102,12 +113,26 @@ type child struct {
 	atPoint      chan struct{}
 }
 
+// maxTrace bounds the recorded trace (a client that spins through requests without ever
+// terminating would otherwise produce millions of events); a truncated trace is still judged by
+// the oracle but is not replayed on the model
+const maxTrace = 3000
+
 func (c *child) ev(s string) {
 	c.mu.Lock()
-	if !c.resulted {
-		c.trace = append(c.trace, s)
-	}
+	c.evLocked(s)
 	c.mu.Unlock()
+}
+
+func (c *child) evLocked(s string) {
+	if c.resulted {
+		return
+	}
+	if len(c.trace) >= maxTrace {
+		c.truncated = true
+		return
+	}
+	c.trace = append(c.trace, s)
 }
 
 func (c *child) jitter() {
@@ -144,7 +169,42 @@ func (c *child) reachPoint() {
 
 var errInjected = errors.New("injected transport error")
 
+func (sc Scenario) statusCode() int {
+	if sc.FaultStatus == 0 {
+		return 404
+	}
+	return sc.FaultStatus
+}
+
+func requestKind(idx int, path string) string {
+	switch {
+	case idx == 0:
+		return "primary-playlist"
+	case strings.HasSuffix(path, ".m3u8"):
+		return "media-playlist"
+	case strings.Contains(path, "init"):
+		return "init"
+	case strings.HasPrefix(path, "/part"):
+		return "part"
+	}
+	return "segment"
+}
+
+// statusAccepted: the statuses the client treats as success for the kind of request (the kind is
+// given by the resource: playlists end in .m3u8)
+func statusAccepted(path string, code int) bool {
+	if strings.HasSuffix(path, ".m3u8") {
+		return code == http.StatusOK
+	}
+	return code == http.StatusOK || code == http.StatusPartialContent
+}
+
 func (c *child) RoundTrip(req *http.Request) (*http.Response, error) {
+	// like net/http's transport (and as http_honours_ctx assumes): a request whose context is
+	// already cancelled is not sent
+	if err := req.Context().Err(); err != nil {
+		return nil, err
+	}
 	c.mu.Lock()
 	idx := c.nreq
 	c.nreq++
@@ -163,6 +223,7 @@ func (c *child) RoundTrip(req *http.Request) (*http.Response, error) {
 	}
 	if c.sc.Fault != "none" && idx == c.sc.FaultAt {
 		c.faultServed.Store(true)
+		c.faultKind.Store(requestKind(idx, req.URL.Path))
 		if c.sc.Close == "on-fault" {
 			c.reachPoint()
 			c.doClose()
@@ -171,9 +232,24 @@ func (c *child) RoundTrip(req *http.Request) (*http.Response, error) {
 			c.ev("req-fault:transport")
 			return nil, errInjected
 		}
+		code := c.sc.statusCode()
+		var fbody []byte
+		if c.sc.FaultBody {
+			fbody, _ = c.st.get(req.URL.Path, reloads)
+		}
+		if statusAccepted(req.URL.Path, code) && fbody != nil {
+			// not a failure for this kind of request (206 on an init / segment / part): an ordinary answer
+			c.faultServed.Store(false)
+			c.ev("req-ok")
+			c.mu.Lock()
+			c.okReqs++
+			c.mu.Unlock()
+			return &http.Response{StatusCode: code, Status: fmt.Sprintf("%d %s", code, http.StatusText(code)),
+				Header: http.Header{}, Body: io.NopCloser(bytes.NewReader(fbody)), Request: req}, nil
+		}
 		c.ev("req-fault:status")
-		return &http.Response{StatusCode: 404, Status: "404 Not Found", Header: http.Header{},
-			Body: io.NopCloser(bytes.NewReader(nil)), Request: req}, nil
+		return &http.Response{StatusCode: code, Status: fmt.Sprintf("%d %s", code, http.StatusText(code)),
+			Header: http.Header{}, Body: io.NopCloser(bytes.NewReader(fbody)), Request: req}, nil
 	}
 	body, ok := c.st.get(req.URL.Path, reloads)
 	if !ok {
@@ -252,7 +328,7 @@ func pacedNow() bool {
 	return false
 }
 
-func classify(err error) string {
+func classify(sc Scenario, err error) string {
 	switch {
 	case err == nil:
 		return "nil"
@@ -262,7 +338,7 @@ func classify(err error) string {
 		return "transport"
 	case err.Error() == "terminated":
 		return "terminated"
-	case strings.HasPrefix(err.Error(), "bad status code: 404"):
+	case err.Error() == fmt.Sprintf("bad status code: %d", sc.statusCode()):
 		return "status"
 	case err.Error() == "injected OnTracks error":
 		return "ontracks"
@@ -306,10 +382,10 @@ func runChild(scJSON string) {
 		c.mu.Lock()
 		c.samples++
 		if !c.resulted {
-			c.trace = append(c.trace, "sample")
+			c.evLocked("sample")
 			if st.nreq != 0 && c.samples == st.nsamples && c.okReqs == st.nreq {
 				c.allDone = true
-				c.trace = append(c.trace, "alldone")
+				c.evLocked("alldone")
 			}
 		}
 		c.mu.Unlock()
@@ -386,7 +462,7 @@ func runChild(scJSON string) {
 		c.resulted = true
 		c.mu.Unlock()
 		res.CloseBefore = c.closeCalled.Load()
-		res.Result = classify(werr)
+		res.Result = classify(sc, werr)
 		res.ResultText = fmt.Sprint(werr)
 	case <-time.After(8 * time.Second):
 		c.mu.Lock()
@@ -442,11 +518,13 @@ func runChild(scJSON string) {
 
 	c.mu.Lock()
 	res.Trace = c.trace
+	res.Truncated = c.truncated
 	res.Requests = c.nreq
 	res.Samples = c.samples
 	res.AllDone = c.allDone
 	c.mu.Unlock()
 	res.FaultServed = c.faultServed.Load()
+	res.FaultKind, _ = c.faultKind.Load().(string)
 	res.OnTracksErred = c.ontracksErr.Load()
 	res.WallMs = time.Since(t0).Milliseconds()
 	out, _ := json.Marshal(res)
